@@ -131,11 +131,19 @@ Proof.
   - destruct (merge servers_schema ty um wm None b written); intros H; discriminate H.
 Qed.
 
-Lemma hand_rule_status ty h base q c : hand_rule ty h base q = Some (inr c) -> is_status c = true.
+Lemma keyed_write_status ty key um b res c :
+  keyed_write ty key um b res = Some (inr c) -> is_status c = true.
+Proof.
+  unfold keyed_write. destruct (plain_write ty None um (Some b) res) as [[v|c']|] eqn:E; [| |discriminate].
+  - destruct (String.eqb _ _); intros H; inversion H. reflexivity.
+  - intros H. inversion H; subst c'. apply (plain_write_status _ _ _ _ _ _ E).
+Qed.
+
+Lemma hand_rule_status ty h base q obs c : hand_rule ty h base q obs = Some (inr c) -> is_status c = true.
 Proof.
   unfold hand_rule. destruct (u_res q) as [res|]; [|discriminate].
   destruct (has_negzero res); [discriminate|].
-  destruct h as [resw|flag resw| |].
+  destruct h as [resw|flag resw| | |key ec| |].
   - apply plain_write_status.
   - destruct (populated flag (u_req q)); [discriminate|apply plain_write_status].
   - apply plain_write_status.
@@ -144,6 +152,16 @@ Proof.
     destruct (fan_of b) as [old|]; [|discriminate]. destruct (fan_of res) as [req|]; [|discriminate].
     destruct (fst (fan_update fan_presets old req false)) as [f|c'|]; try discriminate.
     destruct (c' =? 3)%Z; [|discriminate]. intros H. inversion H. reflexivity.
+  - destruct (String.eqb (vstr key res) ""); [intros H; inversion H; destruct ec; reflexivity|].
+    destruct base as [b|]; [|discriminate]. apply keyed_write_status.
+  - destruct base as [b|]; [|discriminate].
+    destruct (plain_write (ty) None (u_um q) (Some b) res) as [[v|c']|] eqn:E; try discriminate.
+    intros H. inversion H; subst c'. apply (plain_write_status _ _ _ _ _ _ E).
+  - destruct (String.eqb (vstr "id" res) ""); [intros H; inversion H; reflexivity|].
+    destruct base as [b|]; [|discriminate].
+    destruct (keyed_write ty "id" (u_um q) b res) as [[v|c']|] eqn:E; try discriminate.
+    + destruct (_ && _); intros H; inversion H. reflexivity.
+    + intros H. inversion H; subst c'. apply (keyed_write_status _ _ _ _ _ _ E).
 Qed.
 
 Lemma hybrid_status server ty reqs evs :
@@ -153,8 +171,8 @@ Proof.
   intros H b q c. unfold hybrid_rule.
   destruct (alookup server hand_table) as [h|]; [|apply (oracle_status evs H)].
   destruct (nth_error reqs q) as [rq|]; [|apply (oracle_status evs H)].
-  destruct (hand_rule ty h b rq) as [[v|c']|] eqn:Eh; [discriminate| |apply (oracle_status evs H)].
-  intros E. inversion E; subst c'. apply (hand_rule_status _ _ _ _ _ Eh).
+  destruct (hand_rule ty h b rq _) as [[v|c']|] eqn:Eh; [discriminate| |apply (oracle_status evs H)].
+  intros E. inversion E; subst c'. apply (hand_rule_status _ _ _ _ _ _ Eh).
 Qed.
 
 Theorem judge_sound_core : forall server init evs streams eqt reqs,
